@@ -57,6 +57,24 @@ impl CtxOut {
             _ => Seq::<u8>::empty(),
         }
     }
+    /// what a successful `done()` leaves behind when `t` is everything that was written through this sink
+    /// (`self` is the sink as created): Build: the file is `t`; --needed: written or already equal; Verify: the
+    /// existing file IS `t`
+    pub closed spec fn final_effect(&self, t: Seq<u8>) -> bool {
+        match self {
+            CtxOut::Build { path, .. } => committed(pbv(path), t),
+            CtxOut::InMemoryBuild { path, .. } => committed(pbv(path), t) || (fs_exists(pbv(path)) && fs_bytes(pbv(path)) == t),
+            CtxOut::Clean => true,
+            CtxOut::Verify { out, .. } => h_rest(out) == t,
+        }
+    }
+    /// `cur` is the sink `self` after `t` has been written through it
+    pub closed spec fn after_writing(&self, cur: &CtxOut, t: Seq<u8>) -> bool {
+        &&& cur.kind() == self.kind()
+        &&& cur.path_v() == self.path_v()
+        &&& (self.kind() is Build || self.kind() is InMemoryBuild ==> cur.written() == self.written() + t)
+        &&& (self.kind() is Verify ==> self.unverified() == t + cur.unverified())
+    }
     pub closed spec fn kind(&self) -> Mode {
         match self {
             CtxOut::Build { .. } => Mode::Build,
@@ -79,4 +97,47 @@ impl IOCtx {
     pub closed spec fn line_budget_ok(&self) -> bool { self.cur_line + h_lines(&self.input).len() <= usize::MAX }
     /// the source lines not yet read (std `BufRead::lines`: terminators stripped)
     pub closed spec fn pending_lines(&self) -> Seq<Seq<char>> { h_lines(&self.input) }
+}
+
+/// one more chunk written through the sink (the facts are write_output's postcondition)
+pub proof fn lemma_after_writing_step(s0: CtxOut, s1: CtxOut, s2: CtxOut, t: Seq<u8>, c: Seq<u8>)
+    requires
+        s0.after_writing(&s1, t),
+        s2.kind() == s1.kind(),
+        s2.path_v() == s1.path_v(),
+        s1.kind() is Build || s1.kind() is InMemoryBuild ==> s2.written() == s1.written() + c,
+        s1.kind() is Verify ==> c.len() <= s1.unverified().len() && s1.unverified().take(c.len() as int) == c
+            && s2.unverified() == s1.unverified().skip(c.len() as int),
+    ensures
+        s0.after_writing(&s2, t + c),
+{
+    if s0.kind() is Build || s0.kind() is InMemoryBuild {
+        assert(s0.written() + (t + c) =~= (s0.written() + t) + c);
+    }
+    if s0.kind() is Verify {
+        let u = s1.unverified();
+        assert(u =~= u.take(c.len() as int) + u.skip(c.len() as int));
+        assert((t + c) + s2.unverified() =~= t + (c + s2.unverified()));
+    }
+}
+
+/// a successful done() on the last sink state establishes the final effect for everything written
+pub proof fn lemma_final_effect(s0: CtxOut, s1: CtxOut, t: Seq<u8>)
+    requires
+        s0.after_writing(&s1, t),
+        s0.kind() is Build || s0.kind() is InMemoryBuild ==> s0.written() == Seq::<u8>::empty(),
+        // done()'s postcondition on success
+        s1.kind() is Build ==> committed(s1.path_v(), s1.written()),
+        s1.kind() is InMemoryBuild ==> (committed(s1.path_v(), s1.written()) || (fs_exists(s1.path_v()) && fs_bytes(s1.path_v()) == s1.written())),
+        s1.kind() is Verify ==> s1.unverified().len() == 0,
+    ensures
+        s0.final_effect(t),
+{
+    if s0.kind() is Build || s0.kind() is InMemoryBuild {
+        assert(Seq::<u8>::empty() + t =~= t);
+    }
+    if s0.kind() is Verify {
+        assert(s1.unverified() =~= Seq::<u8>::empty());
+        assert(t + Seq::<u8>::empty() =~= t);
+    }
 }
